@@ -222,33 +222,7 @@ def check(model: Model, run: Run) -> None:
         w = difference_witness(W, R1)
         ok1 = w is None
         ufi0 = model.functions[unesc[0].func]
-        # J4: the two characters after the lead byte are decoded by a strict hex decoder, or checked against a
-        # pattern whose language is exactly two hex digits before a lenient one is used
-        LENIENT = {"bytes.fromhex": "skips ASCII whitespace", "bytearray.fromhex": "skips ASCII whitespace", "int": "accepts signs, underscores, whitespace and prefixes"}
-        STRICT = ("base64.b16decode", "binascii.unhexlify", "binascii.a2b_hex")
-        two_hex = Lang(build("[0-9A-Fa-f]{2}", 0, "fullmatch"))
-        guard_ok = False
-        for hs_ in hexs:
-            if hs_.func.startswith(unesc[0].func):
-                Hl = Lang(build(hs_.pattern, hs_.flags, hs_.api if hs_.api in ("match", "fullmatch") else "match"))
-                # ignoring a possible final newline (the un-escaper hands over at most two characters, none of them a newline)
-                extra = difference_witness(Hl, two_hex)
-                if extra is None or (len(extra) == 3 and extra[-1] == 10):
-                    guard_ok = True
-        decs = []
-        for c in ast.walk(ufi0.node):
-            if isinstance(c, ast.Call):
-                t = norm(c.func)
-                if t in STRICT or t in LENIENT and (t != "int" or len(c.args) == 2):
-                    decs.append((t, c))
-        for t, c in decs:
-            okd = t in STRICT or guard_ok
-            run.ob("J4-strict-hex-decoding", okd, {"decoder": t, "guarded_by_two-hex-digit_pattern": guard_ok})
-            if not okd:
-                run.fail(Finding("J4-strict-hex-decoding", ufi0.qualname, f"{t}|unguarded", f"escape digits are decoded with {t}, which {LENIENT[t]}, without a dominating check that they are exactly two hex digits: "
-                                 "text that is not an RFC 4515 escape is accepted and does not survive the round trip", model.loc(FILTER, c)))
-        if not decs:
-            run.note("no recognised hex decoder in the un-escaper: J4 not decided")
+        strict_hex_decoding(model, run, unesc[0], "J4-strict-hex-decoding")
         ok2, w2 = True, None
         hx = hexs[0] if hexs else None
         if hx is not None:
@@ -282,6 +256,37 @@ def check(model: Model, run: Run) -> None:
     empty_values_accepted(model, run)
     from .c19 import parse_results_fresh
     parse_results_fresh(model, run, "sansldap._filter", "J5-parse-results-are-fresh", "from_string(str(f)) == f")
+
+
+def strict_hex_decoding(model: Model, run: Run, unesc_site, rule: str) -> None:
+    """the two characters after the escape lead byte are decoded by a strict hex decoder, or checked against a pattern whose
+    language is exactly two hex digits before a lenient one (bytes.fromhex skips blanks, int() takes signs/underscores) is used"""
+    hexs = [s for s in find_sites(model) if s.module == FILTER and s.api in ("match", "fullmatch") and s.func.startswith(unesc_site.func)]
+    ufi0 = model.functions[unesc_site.func]
+    LENIENT = {"bytes.fromhex": "skips ASCII whitespace", "bytearray.fromhex": "skips ASCII whitespace", "int": "accepts signs, underscores, whitespace and prefixes"}
+    STRICT = ("base64.b16decode", "binascii.unhexlify", "binascii.a2b_hex")
+    two_hex = Lang(build("[0-9A-Fa-f]{2}", 0, "fullmatch"))
+    guard_ok = False
+    for hs_ in hexs:
+        Hl = Lang(build(hs_.pattern, hs_.flags, hs_.api if hs_.api in ("match", "fullmatch") else "match"))
+        # ignoring a possible final newline (the un-escaper hands over at most two characters, none of them a newline)
+        extra = difference_witness(Hl, two_hex)
+        if extra is None or (len(extra) == 3 and extra[-1] == 10):
+            guard_ok = True
+    decs = []
+    for c in ast.walk(ufi0.node):
+        if isinstance(c, ast.Call):
+            t = norm(c.func)
+            if t in STRICT or t in LENIENT and (t != "int" or len(c.args) == 2):
+                decs.append((t, c))
+    for t, c in decs:
+        okd = t in STRICT or guard_ok
+        run.ob(rule, okd, {"decoder": t, "guarded_by_two-hex-digit_pattern": guard_ok})
+        if not okd:
+            run.fail(Finding(rule, ufi0.qualname, f"{t}|unguarded", f"escape digits are decoded with {t}, which {LENIENT[t]}, without a dominating check that they are exactly two hex digits: "
+                             "text that is not an RFC 4515 escape is accepted and does not survive the round trip", model.loc(FILTER, c)))
+    if not decs:
+        run.note("no recognised hex decoder in the un-escaper: strict decoding not decided")
 
 
 def single_byte_pattern(pattern, flags: int) -> bool:
